@@ -177,6 +177,7 @@ func checkC01(c *Ctx, r *Report) {
 	fieldOrderRule(c, r, "C01-fieldorder")
 	r.Rule("C01-section", 1, "sections of a message are delimited the same way for every size and buffering")
 	sectionTermRule(c, r, "C01-section")
+	c09Extra2(c, r, "C01")
 
 	// ---- C01-report
 	r.Rule("C01-report", 6, "reporting chains (shared with C02)")
